@@ -31,7 +31,7 @@ RULE = ("Random grids of 2-12 daily/irregular timesteps of which ~85% carry an e
         "expanding. Non-trivial = fold strictly inside the grid with >= 2 valid starts or a refusal.")
 ASSUMPTIONS = ["the episode_length argument of reset() ('number of states') is not judged; the configured length is",
                "sampling_span cases only check membership, not reachability"]
-REQUIRED_CATS = ["falsy-fold-name", "sub-second-grid", "episode-length-with-fit-transformers", "decision-refused-then-resubmitted", "timesteps-re-added-after-environment-built", "latent-only-timestep", "events-added-then-rebuilt", "steps_delay:1", "steps_delay:2", "one-off-length-then-configured"]
+REQUIRED_CATS = ["sampling-span-1", "falsy-fold-name", "sub-second-grid", "episode-length-with-fit-transformers", "decision-refused-then-resubmitted", "timesteps-re-added-after-environment-built", "latent-only-timestep", "events-added-then-rebuilt", "steps_delay:1", "steps_delay:2", "one-off-length-then-configured"]
 REQUIRED = ["C15:decisions-exact", "C15:start-valid", "C15:visits-contiguous", "C15:every-start-reachable", "C15:refused-when-none-fits",
             "C15:whole-fold", "C15:walk-forward"]
 TECHNIQUE = "runtime monitoring: visited timesteps (observer clock per call) compared with the fold's event-bearing steps; seeded reachability sweep"
@@ -147,7 +147,9 @@ def case(ctx, i, tier):
     fold = rng.choice([n1, n2])
     s, e = folds[fold]
     steps = [g for g in bearing if s <= g <= e]
-    span = rng.choice([None, None, 3])
+    span = rng.choice([None, None, 3, 1, 2])        # (1: always the latest window that fits)
+    if span == 1:
+        ctx.cat("sampling-span-1")
     delay = rng.choice([0, 0, 1, 2])      # an execution delay must not change the episode length
     ctx.cat("steps_delay:%d" % delay)
     refusals = 0
